@@ -122,3 +122,64 @@ impl<T> fmt::Debug for AtomicPtr<T> {
         self.deref().fmt(fmt)
     }
 }
+
+// hooked variants of the atomic operations, they shadow the `Deref` ones
+#[cfg(may_verif)]
+mod verif_impl {
+    use super::{AtomicPtr, AtomicUsize};
+    use crate::verif::step;
+    use std::ops::Deref;
+    use std::panic::Location;
+    use std::sync::atomic::Ordering;
+
+    impl AtomicUsize {
+        #[inline]
+        fn addr(&self) -> usize {
+            self as *const _ as usize
+        }
+        #[track_caller]
+        pub(crate) fn load(&self, o: Ordering) -> usize {
+            step(Location::caller(), "load", self.addr(), |r| *r as u64, || self.deref().load(o))
+        }
+        #[track_caller]
+        pub(crate) fn store(&self, v: usize, o: Ordering) {
+            step(Location::caller(), "store", self.addr(), |_| v as u64, || self.deref().store(v, o))
+        }
+        #[track_caller]
+        pub(crate) fn fetch_sub(&self, v: usize, o: Ordering) -> usize {
+            step(Location::caller(), "fetch_sub", self.addr(), |r| *r as u64, || self.deref().fetch_sub(v, o))
+        }
+    }
+
+    impl<T> AtomicPtr<T> {
+        #[inline]
+        fn addr(&self) -> usize {
+            self as *const _ as usize
+        }
+        #[track_caller]
+        pub(crate) fn load(&self, o: Ordering) -> *mut T {
+            step(Location::caller(), "load", self.addr(), |r| *r as usize as u64, || self.deref().load(o))
+        }
+        #[track_caller]
+        pub(crate) fn store(&self, v: *mut T, o: Ordering) {
+            step(Location::caller(), "store", self.addr(), |_| v as usize as u64, || self.deref().store(v, o))
+        }
+        #[track_caller]
+        pub(crate) fn compare_exchange_weak(
+            &self,
+            c: *mut T,
+            n: *mut T,
+            s: Ordering,
+            f: Ordering,
+        ) -> Result<*mut T, *mut T> {
+            // never fails spuriously under the hooks
+            step(
+                Location::caller(),
+                "cas",
+                self.addr(),
+                |r: &Result<*mut T, *mut T>| r.is_ok() as u64,
+                || self.deref().compare_exchange(c, n, s, f),
+            )
+        }
+    }
+}
